@@ -64,6 +64,9 @@ CHECKS['C11'] = dict(engine=SYMX, technique='bounded symbolic execution of Grid.
 CHECKS['C12'] = dict(engine=SYMX, technique='bounded symbolic execution of the filter text -> AST -> generated-source path (real filter grammar through the symbolic pyparsing interpreter, real parse actions, real source generation) with one symbolic code point per position; syntactic safety check of the generated source; canary filters under sys.addaudithook; replay',
    text='For 17 filters covering every literal and identifier position, one unconstrained symbolic code point replaces / is inserted at every position; parse_filter and _generate_filter_in_python run symbolically; every path either rejects the text with a parse error or yields a source whose return expression contains only hszinc\'s own helper names, parameters, constants, constant subscripts and lists of constants (so no name or call taken from the filter text). 42 canary filters (builtins, dunder names, quote/backslash breakouts) are evaluated concretely under an audit hook: no canary effect, no process/file/socket event, generated sources safe, grid and module globals unchanged.',
    note='The generated text is checked after concretising symbolic characters (exhaustive for small domains, sampled representatives otherwise, counted); safety is syntactic (vf/c12audit.py).', ref='5 C12')
+CHECKS['C10'] = dict(engine=SYMX, technique='bounded symbolic execution of the real Grid mutators, writers and readers (own explorer, z3 decides every branch) against an independently stated version gate; replay',
+   text='15 entry paths (constructor arguments, metadata and column-metadata stores/overwrites, column[name]={...}, append, insert, extend, setitem, +=) x 10 declared versions (none, 2.0, 3.0, 2.5, 3.0.0, 1.0, 4.0, 2.0.0, 2.0a, 3) x 12 value kinds are chosen by symbolic selectors: a 3.0-only value upgrades an unversioned grid, is accepted by a 3.0-rules version and refused with ValueError (grid unchanged) otherwise; all pairs of stores; the writers as last line of defence for data placed behind the grid\'s back; and the five decisions Grid / ZINC writer / JSON writer / ZINC reader / JSON reader agree for the named versions and for every version a[.b[.c]][a] with symbolic components a<=4, b<=3, c<=2.',
+   note='Gate stated independently as "declared version later than 2.0"; values are concrete objects chosen by symbolic selectors; multi-item extend calls are not required to be atomic.', ref='5 C10')
 NA_REASON = {}
 
 def main():
